@@ -135,7 +135,10 @@ class Builder:
 
     def cmsg(self, sub):
         self.serial += 1
-        return ['/c07cm', self.serial, [sub, ['/done', self.serial]], ['/inner', self.serial, 'x']]
+        # a bundle-shaped argument, and a completion MESSAGE that itself carries a
+        # timed bundle (three levels: every level is stamped from this send's instant)
+        return ['/c07cm', self.serial, [sub, ['/done', self.serial]],
+                ['/inner', self.serial, 'x', [sub, ['/deep', self.serial]]]]
 
     def elements(self, specs):
         out = []
@@ -514,7 +517,8 @@ def run_reuse(rep):
     rng = rep.rng
     fixed = []
     for spec in (['m'], ['m', ['b', 0.2, ['m']]], [['b', 0.2, ['m', ['b', 0.3, ['m']]]]],
-                 [['b', None, [['b', None, [['b', 0.5, ['m']]]]]]]):
+                 [['b', None, [['b', None, [['b', 0.5, ['m']]]]]]],
+                 ['cm'], ['m', 'cm'], [['b', 0.2, ['cm']]]):
         for clock in (['system'], ['tempo', 2]):
             fixed.append({'routines': [{'clock': clock, 'spawn': None, 'steps': [
                 ['wait', 1], ['shared', 0.1 if spec[0] == 'm' or spec[0][1] is not None else None, 'a'],
